@@ -5,6 +5,7 @@ CONSTANTS
   Names <- MCNames
   Default = "numpy"
   PrevScope = "per_backend"
+  WithDispatchModes = FALSE
   MaxOps = 6
 CONSTRAINT Bound
 INVARIANT TypeOK
